@@ -229,7 +229,7 @@ def sig(rec, clauses):
     if comp is None and rec.get("k") in ("equiv", "equivb"):
         comp = "%s+%s+%s" % (rec.get("s"), rec.get("c"), rec.get("r"))
     if comp is None:
-        comp = rec.get("w") or rec.get("cls") or rec.get("key") or "?"
+        comp = rec.get("w") or rec.get("cls") or rec.get("key") or rec.get("what") or "?"
     return {"component": comp, "clause": clauses[0] if clauses else "", "kind": rec.get("k", "")}
 
 
@@ -243,7 +243,8 @@ def run(c):
               "run-time.  non-trivial = a tree with >= 1 key that did not throw, or a composition case with >= 1 iteration; distinct by content")
     c.mechanism = {"SchemaOK / TakesEffect / RoundTrip / UnknownReported / BadEnumThrows per component": "M+V",
                    "DispatchOK (parse o print = id, every enumerator reaches the same-named type)": "M+V",
-                   "run-time = compile-time (iterations, residual bits, solution / preconditioner-action / report-text digests, bytes), scalar and 2x2 block backend": "V (bitwise)",
+                   "run-time = compile-time (iterations, residual bits, solution / preconditioner-action / report-text digests, bytes), scalar and 2x2 block backend, also after amg::rebuild(A2) on the same objects": "V (bitwise)",
+                   "parameters still in effect after rebuild (rebuilt typed amg = typed amg freshly built from 2A)": "V (bitwise)",
                    "params::get compiles (deflated_solver, ilut)": "V (compile probe)",
                    "header scan = behaviour": "drift only"}
     c.assumptions = ["value codes: two non-default values per member (one for bool), dyadic so the text round trip is exact",
@@ -391,7 +392,8 @@ def run(c):
                 lines.append(json.dumps({"e": "missing-%s-side" % ("typed" if t is None else "runtime"), "case": list(key)}))
                 continue
             m = dict(r); m["k"] = "equiv"; m["seed"] = c.seed + 1000 * so
-            for f in ("threw", "exc", "it", "res_lo", "res_hi", "x_lo", "x_hi", "px_lo", "px_hi", "bytes", "txt_lo", "txt_hi"):
+            for f in ("threw", "exc", "it", "res_lo", "res_hi", "x_lo", "x_hi", "px_lo", "px_hi", "bytes", "txt_lo", "txt_hi",
+                      "rthrew", "rit", "rres_lo", "rres_hi", "rx_lo", "rx_hi", "rpx_lo", "rpx_hi"):
                 m[f] = t[f]
             lines.append(json.dumps(m))
     lines.append('{"e":"End"}')
@@ -413,7 +415,7 @@ def run(c):
             c.nontrivial.add((r["k"], r.get("c") or r.get("cls"), r.get("what") or r.get("nullspace"), r["mat"], r["px_lo_t"]))
         elif r.get("k") == "equiv" and r["it"] > 0:
             c.nontrivial.add(("equiv", r["idx"], r["mat"], r["cfg"], r.get("seed"), r["x_lo"]))
-    for want in ("tree", "schema", "equiv", "enum", "badtype", "unkrt", "equivp", "equivb", "array"):
+    for want in ("tree", "schema", "equiv", "enum", "badtype", "unkrt", "equivp", "equivb", "rebuilt", "array"):
         if not kinds.get(want):
             raise vcheck.InfraError("no '%s' records were produced" % want)
     if kinds.get("equiv", 0) != scan_ntriples() * (4 if th else 2) * 2 * nseeds:
